@@ -11,7 +11,7 @@ m = importlib.util.module_from_spec(spec); loader.exec_module(m)
 with m.CoqLock():
     m.regen_coqproject()
 PY
-(cd coq && timeout 7000 make -j16)
+(cd coq && timeout 7000 make -k -j16) || echo "WARNING: some Coq files failed to build; the checks that depend on them will report it"
 # warm the Go build cache for the harness packages
 cp /repo/go.sum harness/go.sum
 (cd harness && go test -tags verif -vet=off -count=1 -run '^$' ./... >/dev/null 2>&1 || true)
